@@ -156,6 +156,24 @@ func syncPrograms() []syncProg {
 			wg.Wait()
 			out(fmt.Sprint(n))
 		}},
+		{"a loop that polls with Gosched lets the other goroutines run (default schedule terminates)", []string{"seen after 1 polls", "seen after 2 polls", "seen after 3 polls", "spinning"}, func(out func(string)) {
+			flag := false
+			vsched.GoUser("setter", func() { vsched.Yield("setter.step"); flag = true })
+			n := 0
+			for !flag {
+				n++
+				if n > 3 {
+					out("spinning") // continuing with the poller costs a deviation each time: bounded
+					return
+				}
+				vsched.Gosched()
+			}
+			if n == 0 {
+				out("seen at once")
+			} else {
+				out(fmt.Sprintf("seen after %d polls", n))
+			}
+		}},
 		{"once runs exactly once and later callers wait for it", []string{"1 1"}, func(out func(string)) {
 			var o vsync.Once
 			var wg vsync.WaitGroup
